@@ -318,6 +318,32 @@ def _rebuild_prefix(ctx, f):
                 % text(iff.test), text_="swizzle prefix reuse")
 
 
+def _modify_root(ctx):
+    """Tensor._modifyRoot applies a fiber-level transform at the root or below
+    it.  Both legs must forward the caller's keyword arguments (levels,
+    coord_style, ...): the rank ids and the shape are computed from them."""
+    f = ctx.method("Tensor", "_modifyRoot")
+    kw = f.kwarg
+    ctx.require(kw, "C09.R4: _modifyRoot no longer takes **kwargs")
+    fp = [p for p in f.params[1:3]]
+    calls = [c for c in f.own_nodes() if isinstance(c, ast.Call)
+             and isinstance(c.func, ast.Name) and c.func.id in fp]
+    ctx.require(len(calls) >= 2, "C09.R4: the two transform calls of _modifyRoot "
+                "were not found")
+    for c in calls:
+        fw = any(k.arg is None and text(k.value) == kw for k in c.keywords)
+        if fw:
+            ctx.ok("C09.R4", f, c, "keyword arguments forwarded",
+                   text_="_modifyRoot forwards to %s" % c.func.id)
+        else:
+            ctx.bad("C09.R4", f, c, "Tensor._modifyRoot calls `%s` without "
+                    "**%s: below the root the transform runs with default "
+                    "arguments (one level, tuple style) while the rank ids and "
+                    "shape are computed for the requested ones -- the result "
+                    "is malformed" % (text(c)[:50], kw),
+                    text_="_modifyRoot forwards to %s" % c.func.id)
+
+
 def _swap_guard(ctx):
     """Tensor.swapRanks skips the fiber-level swap only when there is nothing
     to swap: the guard must be existential over the rank's fibers (`not all
@@ -529,6 +555,7 @@ def r4(ctx):
     _rebuild_prefix(ctx, f)
     _merge_alignment(ctx)
     _swap_guard(ctx)
+    _modify_root(ctx)
     # Fiber.swapRanks
     f = ctx.method("Fiber", "swapRanks")
     fl = so = un = False
